@@ -1380,6 +1380,72 @@ func generate(r *rand.Rand, tier string) []string {
 	}
 	g := &gen{r: r}
 	var out []string
+	// the round-6 streams come FIRST: on a starved machine the run's time budget (child.go) cuts the END of the list
+	var head []string
+	// HISTORIES (history.go): SPARSE descriptions (sections and optional fields left out: whatever a rendering leaves
+	// out could be inherited from an earlier conversion) after one to three other conversions, half of them rejected
+	// by the common decoder after the HCL side was marshalled
+	nh := 150
+	if tier == "thorough" {
+		nh = 1500
+	}
+	for i := 0; i < nh; i++ {
+		d := g.describe()
+		g.sparse(d)
+		head = append(head, line(r.Int63n(1<<40), 0, d, "hi="+historyToken(r)))
+	}
+	// optional arguments left out as NULL — literally, through a local whose value is null, through a local derived
+	// from it; and strings as coalesce(local.z, "value") with z = null (a local may hold null and be referenced later)
+	nn := 120
+	if tier == "thorough" {
+		nn = 1200
+	}
+	for i := 0; i < nn; i++ {
+		d := g.describe()
+		g.nulls(d)
+		sx := r.Int63n(1<<40)/3*3 + 1 + int64(i%2)
+		head = append(head, line(sx, 0, d))
+	}
+	// how the files are SAVED (enc.go): CRLF line terminators (all / some / first / all but the first / one file only);
+	// the descriptions of this stream carry multi-line bodies and payloads, which the printers spell as heredocs and
+	// block scalars — the places where a line terminator of the FILE stands inside a value
+	ne := 140
+	if tier == "thorough" {
+		ne = 1500
+	}
+	for i := 0; i < ne; i++ {
+		d := g.describe()
+		if i%4 != 3 {
+			g.multiline(d)
+		}
+		sx := r.Int63n(1 << 40)
+		if i%3 == 0 {
+			sx = sx/3*3 + 2 // the fancy spelling (locals, heredocs in locals, literal block scalars)
+		}
+		head = append(head, line(sx, 0, d, "enc="+encModes[i%len(encModes)]))
+	}
+	// SIZE (enc.go): both files padded with a comment block of 63 KiB … 4.1 MiB, the description goes on after it
+	np := 1
+	if tier == "thorough" {
+		np = 4
+	}
+	for k := 0; k < np; k++ {
+		for _, kib := range padSizes {
+			d := g.describe()
+			for len(d.get("scenario").L) < 2 {
+				d = g.describe()
+			}
+			pl := ""
+			if kib == 63 || kib == 65 || kib == 1025 || kib == 2048 {
+				pl = "pl=1"
+			}
+			head = append(head, line(r.Int63n(1<<40), 0, d, "pad="+strconv.Itoa(kib), pl))
+			if kib == 65 {
+				head = append(head, line(r.Int63n(1<<40), 0, g.describe(), "pad=65"))
+			}
+		}
+	}
+	out = append(out, head...)
 	for i := 0; i < n; i++ {
 		d := g.describe()
 		mal := 0
@@ -1463,69 +1529,6 @@ func generate(r *rand.Rand, tier string) []string {
 		d := g.describe()
 		g.enlarge(d, 80+r.Intn(220))
 		out = append(out, line(r.Int63n(1<<40), 0, d, "big=1"))
-	}
-	// HISTORIES (history.go): SPARSE descriptions (sections and optional fields left out: whatever a rendering leaves
-	// out could be inherited from an earlier conversion) after one to three other conversions, half of them rejected
-	// by the common decoder after the HCL side was marshalled
-	nh := 150
-	if tier == "thorough" {
-		nh = 1500
-	}
-	for i := 0; i < nh; i++ {
-		d := g.describe()
-		g.sparse(d)
-		out = append(out, line(r.Int63n(1<<40), 0, d, "hi="+historyToken(r)))
-	}
-	// optional arguments left out as NULL — literally, through a local whose value is null, through a local derived
-	// from it; and strings as coalesce(local.z, "value") with z = null (a local may hold null and be referenced later)
-	nn := 120
-	if tier == "thorough" {
-		nn = 1200
-	}
-	for i := 0; i < nn; i++ {
-		d := g.describe()
-		g.nulls(d)
-		sx := r.Int63n(1<<40)/3*3 + 1 + int64(i%2)
-		out = append(out, line(sx, 0, d))
-	}
-	// how the files are SAVED (enc.go): CRLF line terminators (all / some / first / all but the first / one file only);
-	// the descriptions of this stream carry multi-line bodies and payloads, which the printers spell as heredocs and
-	// block scalars — the places where a line terminator of the FILE stands inside a value
-	ne := 140
-	if tier == "thorough" {
-		ne = 1500
-	}
-	for i := 0; i < ne; i++ {
-		d := g.describe()
-		if i%4 != 3 {
-			g.multiline(d)
-		}
-		sx := r.Int63n(1 << 40)
-		if i%3 == 0 {
-			sx = sx/3*3 + 2 // the fancy spelling (locals, heredocs in locals, literal block scalars)
-		}
-		out = append(out, line(sx, 0, d, "enc="+encModes[i%len(encModes)]))
-	}
-	// SIZE (enc.go): both files padded with a comment block of 63 KiB … 4.1 MiB, the description goes on after it
-	np := 1
-	if tier == "thorough" {
-		np = 4
-	}
-	for k := 0; k < np; k++ {
-		for _, kib := range padSizes {
-			d := g.describe()
-			for len(d.get("scenario").L) < 2 {
-				d = g.describe()
-			}
-			pl := ""
-			if kib == 63 || kib == 65 || kib == 1025 || kib == 2048 {
-				pl = "pl=1"
-			}
-			out = append(out, line(r.Int63n(1<<40), 0, d, "pad="+strconv.Itoa(kib), pl))
-			if kib == 65 {
-				out = append(out, line(r.Int63n(1<<40), 0, g.describe(), "pad=65"))
-			}
-		}
 	}
 	// every pair of file names once
 	for _, p := range namePairs {
